@@ -127,6 +127,7 @@ def to_contract(qualname, hs, vidx, command=None, extra_requires=(), check_wf=Tr
     groups = {}
     for o in hs.outs:
         groups.setdefault(o.kind, []).append(o)
+    touches_im = any("internal_messages" in str(m) for m in hs.modifies)  # the wrappers that set / clear request markers say so
     for kind, outs in groups.items():
         cl = []
         if kind == "TransportError":
@@ -158,6 +159,10 @@ def to_contract(qualname, hs, vidx, command=None, extra_requires=(), check_wf=Tr
                 g = f"old({o.guard})"
                 for c in o.post:
                     cl.append(Clause(c.id, f"implies({g}, {c.text})", c.tag, guard=g))
+                if not touches_im and not any(("IM" in c.text) or ("mk" in c.text) for c in o.post):
+                    # only a rejected message from an unknown node/child sets a request marker and only that node's own presentation
+                    # clears it: every other handled message leaves the markers alone (C10: "until that node has presented itself")
+                    cl.append(Clause("C10/markers-untouched-by-other-messages", f"implies({g}, same_dict(IM))", "property", guard=g))
                 if o.log is not None and not any("SM" in c.text for c in o.post):
                     # only Gateway.send and a wake touch the sleep buffer: every other handled message leaves it alone (C07)
                     cl.append(Clause("C07/buffer-untouched-by-non-wake-messages", f"implies({g}, same_dict(SM))", "property", guard=g))
